@@ -271,8 +271,14 @@ func c13Exec(hist []c13Op) (string, bool, []lib.Problem) {
 	if len(pr.list) > 0 {
 		return "", true, pr.list
 	}
+	if c13Outcome != nil {
+		c13Outcome(fmt.Sprintf("%s last=%s processor-runs=%d", hist[0].Var, hist[len(hist)-1].Op, len(run.runs)))
+	}
 	return key, false, nil
 }
+
+// c13Outcome, when set, receives the outcome class of every executed history.
+var c13Outcome func(string)
 
 func init() {
 	lib.Register(&lib.Check{
@@ -283,12 +289,13 @@ func init() {
 			"i.e. between two events of the real Run loop. Every transition replays the history on a fresh engine+component, then drains the engine. Oracle: the first processor run after a request made at r for t happens at a time <= t (and one does happen); " +
 			"notifications are requests for t = r. State = (variant, re-arm budget, pendingWakeup guard read through SaveCheckpoint, pending event multiset, outstanding deadlines), all relative to now.",
 		Sharded:     false,
-		MinOutcomes: 0,
+		MinOutcomes: 20,
 		Assumptions: []string{
 			"a wakeup request for a past time is a caller error (the engine panics) and is not part of the alphabet",
 			"canonical state is time-shift invariant: the component never looks at absolute time (only MaxUint64 is special)",
 		},
 		Run: func(c *lib.Ctx) {
+			c13Outcome = c.Outcome
 			lib.BFS(c, lib.BFSConfig[c13Op]{
 				Ops: func(hist []c13Op) []c13Op {
 					if len(hist) == 0 {
